@@ -59,7 +59,7 @@ def mid(name_of_leaf: str, variant: dict, tag: str = 'm') -> str:
 	lines += [f'def {tag}_wide() -> int:', '\twv = wide(' + ', '.join(str(i) for i in range(11)) + ')', '\twvs = [wv]', '\treturn len(wvs)', '', '']
 	lines += [f'def {tag}_seed() -> int:', '\tseed = SEED', '\tseeds = [SEED, seed]', '\treturn len(seeds)', '', '']
 	# the only dict type of the project (a user template may request an include for it): root has none
-	lines += [f'def {tag}_table() -> int:', "\ttable: dict[str, int] = {'k': 1}", '\treturn len(table)', '', '']
+	lines += [f'def {tag}_table() -> int:', "\ttable: dict[str, int] = {'k': 1}", '\ttotal = 0', '\tfor tk, tv in table.items():', '\t\ttotal = total + tv + len(tk)', '\tnames = [tk2 for tk2 in table.keys()]', "\thas = 'k' in table", '\treturn len(table) + total + len(names)', '', '']
 	# closures capturing several names: the order of a capture list is part of the emitted text
 	lines += [f'def {tag}_closure(n: int) -> int:', '\talpha = n + 1', '\tbeta = n + 2', '\tgamma = n + 3', '\tdelta = n + 4',
 		'\tdef inner(k: int) -> int:', '\t\treturn gamma + alpha + k + delta + beta', '',
